@@ -60,6 +60,60 @@ def ackermannize(assertions):
     return [ack(a) for a in assertions]
 
 
+def euf_abstract(assertions):
+    """nonlinear products, divisions by non-constants, floors and powers become
+    uninterpreted functions of their (abstracted) arguments: the result is linear
+    arithmetic + EUF.  Only drops arithmetic facts, so unsat here is sound."""
+    memo = {}
+    ufs = {}
+
+    def uf(name, sorts, rng):
+        key = (name, tuple(str(x) for x in sorts), str(rng))
+        if key not in ufs:
+            ufs[key] = z3.Function(f"abs!{name}!{len(ufs)}", *sorts, rng)
+        return ufs[key]
+
+    def isnum(t):
+        return z3.is_int_value(t) or z3.is_rational_value(t)
+
+    def go(t):
+        i = t.get_id()
+        if i in memo:
+            return memo[i]
+        r = t
+        if z3.is_quantifier(t):
+            r = t
+        elif z3.is_app(t) and t.num_args() > 0:
+            ch = [go(c) for c in t.children()]
+            k = t.decl().kind()
+            if k == z3.Z3_OP_MUL:
+                nn = [c for c in ch if not isnum(c)]
+                if len(nn) >= 2:
+                    # keep numeric coefficient outside, abstract the monomial (sorted for commutativity)
+                    nums = [c for c in ch if isnum(c)]
+                    nn = sorted(nn, key=lambda c: c.get_id())
+                    f = uf("mul%d" % len(nn), [c.sort() for c in nn], t.sort())
+                    r = f(*nn)
+                    for c in nums:
+                        r = c * r
+                else:
+                    r = t.decl()(*ch)
+            elif k == z3.Z3_OP_DIV and not isnum(ch[1]):
+                r = uf("div", [c.sort() for c in ch], t.sort())(*ch)
+            elif k in (z3.Z3_OP_IDIV, z3.Z3_OP_MOD, z3.Z3_OP_REM) and not isnum(ch[1]):
+                r = uf("idiv%d" % k, [c.sort() for c in ch], t.sort())(*ch)
+            elif k == z3.Z3_OP_TO_INT:
+                r = uf("toint", [ch[0].sort()], t.sort())(ch[0])
+            elif k == z3.Z3_OP_POWER:
+                r = uf("pow", [c.sort() for c in ch], t.sort())(*ch)
+            else:
+                r = t.decl()(*ch)
+        memo[i] = r
+        return r
+
+    return [go(a) for a in assertions]
+
+
 def _model_dict(m):
     model = {}
     for d in m.decls():
@@ -84,7 +138,19 @@ def _z3_worker(task):
             s0 = z3.Solver(ctx=ctx)
             s0.from_string(core)
             asserts = [z3.simplify(a) for a in s0.assertions()]
-            if mode == "prove":
+            if mode in ("prove", "prove-only"):
+                try:
+                    ea = euf_abstract(asserts)
+                    se = z3.Solver(ctx=ctx)
+                    se.set("timeout", 3000)
+                    for a in ea:
+                        se.add(a)
+                    re_ = se.check()
+                    log.append(("euf-abstraction", str(re_), round(time.time() - t0, 3)))
+                    if re_ == z3.unsat:
+                        return name, "unsat", time.time() - t0, None, "z3-smt(EUF abstraction of nonlinear/floor terms, qf core)", log
+                except z3.Z3Exception as e:
+                    log.append(("euf-abstraction", "error:" + str(e)[:80], round(time.time() - t0, 3)))
                 try:
                     g0 = z3.Goal(ctx=ctx)
                     for a in asserts:
@@ -116,8 +182,37 @@ def _z3_worker(task):
                 return name, "unsat", time.time() - t0, None, "z3-smt(qf core)", log
             if r2 == z3.sat:
                 model = _model_dict(s2.model())
-                if full is None:
+                if full is None and mode != "prove-only":
                     return name, "sat", time.time() - t0, model, "z3-smt(qf core = full)", log
+            if r2 == z3.unknown and mode == "prove":
+                # model search under small bounds on the integer unknowns: a model found
+                # under extra constraints is a model of the core (refutation side only)
+                s2b = z3.Solver(ctx=ctx)
+                s2b.set("timeout", 6000)
+                for a in asserts:
+                    s2b.add(a)
+                ints = set()
+                stack = list(asserts)
+                seen_ = set()
+                while stack:
+                    x_ = stack.pop()
+                    if x_.get_id() in seen_:
+                        continue
+                    seen_.add(x_.get_id())
+                    if z3.is_const(x_) and x_.decl().kind() == z3.Z3_OP_UNINTERPRETED and x_.sort().kind() == z3.Z3_INT_SORT:
+                        ints.add(x_)
+                    elif z3.is_app(x_):
+                        stack.extend(x_.children())
+                for v_ in ints:
+                    s2b.add(v_ >= -40, v_ <= 40)
+                r2b = s2b.check()
+                log.append(("smt-core-bounded-ints", str(r2b), round(time.time() - t0, 3)))
+                if r2b == z3.sat:
+                    model = _model_dict(s2b.model())
+                    if full is None and mode != "prove-only":
+                        return name, "sat", time.time() - t0, model, "z3-smt(qf core = full, model search with |int| <= 40)", log
+        if mode == "prove-only":
+            return name, "unknown", time.time() - t0, model, "rel undecided", log
         if mode == "cover":
             # vacuity guard: only an unsat answer matters (core unsat => hypotheses contradictory)
             return name, ("sat" if model is not None else "unknown"), time.time() - t0, None, "cover", log
@@ -239,13 +334,30 @@ def _ob_worker(task):
         has_q = len(full) != len(core)
         smt_full = vcprep.to_smt2(full) if has_q else None
         smt_core = vcprep.to_smt2(core)
+        rels = [(d, vcprep.to_smt2(r), len(r)) for d, r in getattr(ob, "_rels", [])]
     except Exception as e:
         import traceback
 
         return idx, dict(status="error", backend="prep", time=time.time() - t0, model=None, reason=repr(e) + traceback.format_exc()[-800:], log=[], prep=time.time() - t0)
     prep = time.time() - t0
     mode = "prove" if ob.kind != "cover" else "cover"
+    pre_log = []
+    cand_model = None
+    if mode == "prove":
+        # cone-of-influence subsets first (unsat of a subset of the hypotheses is sound)
+        tspent = 0.0
+        for d_, smt_rel, nrel in rels:
+            n1, r1, t1, m1, b1, l1 = _z3_worker((ob.name, None, smt_rel, max(3000, timeout_ms // 4), seed, "prove-only"))
+            tspent += t1
+            pre_log += [("rel%d:" % d_ + a, b, c) for a, b, c in l1]
+            if r1 == "unsat":
+                return idx, dict(status="unsat", backend=b1 + " [cone of influence depth %d: %d of %d hypotheses]" % (d_, nrel, len(core)), time=tspent, model=None, reason=b1, log=pre_log, prep=prep)
+            if m1 is not None and cand_model is None:
+                cand_model = m1  # model of a *subset* of the hypotheses: a candidate, to be replayed
     name, res, t, model, backend, log = _z3_worker((ob.name, smt_full, smt_core, timeout_ms, seed, mode))
+    log = pre_log + log
+    if res in ("unknown", "error") and cand_model is not None:
+        res, model, backend = "sat-core", cand_model, "z3-smt(model of a cone-of-influence subset; candidate only)"
     r = dict(status=res, backend=backend if res in ("unsat", "sat", "sat-core") else "z3", time=t, model=model, reason=backend, log=log, prep=prep)
     if mode == "prove" and (res in ("unknown", "error", "sat-core") or use_cvc5 == "all") and use_cvc5:
         cres, ct, err = run_cvc5(smt_core, cvc5_timeout_s)
